@@ -3,6 +3,7 @@ pub mod c01;
 pub mod c03;
 pub mod c04;
 pub mod c05;
+pub mod c13;
 
 pub fn get(id: &str) -> Option<Box<dyn Prop>> {
   match id {
@@ -10,6 +11,7 @@ pub fn get(id: &str) -> Option<Box<dyn Prop>> {
     "C03" => Some(Box::new(c03::C03)),
     "C04" => Some(Box::new(c04::C04)),
     "C05" => Some(Box::new(c05::C05)),
+    "C13" => Some(Box::new(c13::C13)),
     _ => None,
   }
 }
